@@ -121,6 +121,10 @@ def spaces(tier, seed):
     sp.append(Product("after-an-odd-string", {"odd": range(len(ODD)), "y": [7, 2024], "md": [(3, 5), (12, 31)], "t": [(3, 30, 0, 0), (15, 7, 9, 120000), (0, 15, 0, 0)],
                                               "r": RENDERINGS, "lang": ["en", "auto"]},
                       note="two-call history inside the case: an odd (lenient-path) string is parsed first, with the same language selection"))
+    from ..oddities import N_CALLS
+    sp.append(Product("after-another-entry-point", {"call": range(N_CALLS), "y": [7, 2024], "md": [(3, 5), (12, 31), (1, 13)], "t": [(3, 30, 0, 0), (15, 7, 9, 120000)],
+                                                    "r": RENDERINGS, "lang": ["en", "auto"]},
+                      note="two-call history inside the case: a calendar parser, search_dates, date_formats, an explicit order, a region, a locale, a failing call ... first; then the standard string with default settings"))
     us_vals = [0, 1, 5, 9, 10, 99, 100, 999, 1000, 99999, 100000, 123456, 500000, 999999, 900000, 90000, 9000, 900, 90]
     sp.append(Product("sweep-microsecond", {"y": [1, 2024, 9999], "md": [(12, 31)],
                                             "t": [(H, M, S, u) for (H, M, S) in ((0, 0, 0), (23, 59, 59), (12, 0, 9)) for u in us_vals],
@@ -260,6 +264,12 @@ def run_case(sub, c):
     if "odd" in c:
         from ..oddities import ODD
         api.outcome_of(api.gdd, ODD[c["odd"]], None if c["lang"] == "auto" else ["en"], None, None, None)
+    if "call" in c:
+        from ..oddities import calls
+        try:
+            calls()[c["call"]][1]()
+        except Exception:  # noqa: BLE001 - only the side effects of the first call matter here
+            pass
     if "ord" in c:
         y, m, d = cal.from_ordinal(c["ord"])
     else:
